@@ -13,6 +13,7 @@ import (
 	"fmt"
 	"runtime"
 	"runtime/debug"
+	"time"
 	"unicode/utf8"
 
 	"github.com/ipfs/go-cid"
@@ -103,7 +104,14 @@ func oracleJSON(m message.Message) (string, string) {
 }
 
 // shrinkMsg simplifies m while `bad` keeps failing with the same kind.
-func shrinkMsg(m message.Message, bad func(message.Message) string) message.Message {
+func shrinkMsg(m message.Message, bad0 func(message.Message) string) message.Message {
+	deadline := time.Now().Add(4 * time.Second)
+	bad := func(x message.Message) string {
+		if time.Now().After(deadline) {
+			return ""
+		}
+		return bad0(x)
+	}
 	kind := bad(m)
 	try := func(c message.Message) bool {
 		if bad(c) == kind {
@@ -169,7 +177,15 @@ func shrinkMsg(m message.Message, bad func(message.Message) string) message.Mess
 }
 
 // shrinkBytes: ddmin-style removal of chunks while `bad` keeps its kind.
-func shrinkBytes(b []byte, bad func([]byte) string) []byte {
+func shrinkBytes(b []byte, bad0 func([]byte) string) []byte {
+	// a failing decode may be expensive (a hostile multi-GiB allocation): bound the search
+	deadline := time.Now().Add(4 * time.Second)
+	bad := func(x []byte) string {
+		if time.Now().After(deadline) {
+			return ""
+		}
+		return bad0(x)
+	}
 	kind := bad(b)
 	for n := len(b) / 2; n >= 1; n /= 2 {
 		for i := 0; i+n <= len(b); {
